@@ -24,11 +24,11 @@ for i in ids:
     r = subprocess.run(["/verif/tools/run_seeded.sh", prop, dst], capture_output=True, text=True).stdout
     print("   " + r.replace("\n", "\n   "))
     det = "NOT DETECTED (quick tier exit 0)"
-    rp = f"/root/seedrun/verif/replays/{prop}-20260925-quick.json"
+    rp = os.environ.get("SEEDRUN", "/root/seedrun") + f"/verif/replays/{prop}-20260925-quick.json"
     if "VIOLATION" in r and os.path.exists(rp):
         d = json.load(open(rp))
         cs = d.get("cases", [])[:2]
-        det = "quick tier exit 1: " + [l for l in r.splitlines() if "VIOLATION" in l][0].replace("/root/seedrun/verif/replays/", "replays/") + \
+        det = "quick tier exit 1: " + [l for l in r.splitlines() if "VIOLATION" in l][0].replace(os.environ.get("SEEDRUN", "/root/seedrun") + "/verif/replays/", "replays/") + \
               " ; " + " | ".join(f"{c['kind']} {c.get('signature','')} on '{c['case'][:160]}' ({c['occurrences']} cases)" for c in cs) + \
               (" ; broken: " + ",".join(b["what"] for b in d.get("broken_obligations", [])) if d.get("broken_obligations") else "")
     subprocess.run(["/verif/tools/record_seeded.py", dst, prop,
